@@ -17,7 +17,8 @@ namespace occa {
       forEach([&](smntExprNode smntExpr) {
           exprNode *mappedNode = func(smntExpr);
 
-          if (mappedNode == smntExpr.node) {
+          // NULL: the callback reported an error, keep the node
+          if (!mappedNode || (mappedNode == smntExpr.node)) {
             return;
           }
 
